@@ -82,7 +82,29 @@ def templates():
         "two-gen": dict(parent=[[U, U], [U, U], [0, 1], [U, U], [2, 3]], tau=[[1, 1]] * 5),
         "two-gen4x": dict(parent=[[U, U], [U, U], [0, 1], [U, 2]], tau=[[2, 2]] * 4),
         "sibs-unbalanced": dict(parent=[[U, U], [U, U], [0, 1], [0, 1]], tau=[[2, 2], [2, 2], [1, 3], [2, 2]]),
+        # a member of a parental pair with further progeny of its own (other parent unknown / itself / its own child)
+        "pair+duo-p": dict(parent=[[U, U], [U, U], [0, 1], [0, U]], tau=[[1, 1]] * 4),
+        "pair+duo-q": dict(parent=[[U, U], [U, U], [0, 1], [U, 1]], tau=[[1, 1]] * 4),
+        "pair+duos4x": dict(parent=[[U, U], [U, U], [0, 1], [0, U], [U, 1]], tau=[[2, 2]] * 5),
+        "pair+selfed": dict(parent=[[U, U], [U, U], [0, 1], [0, 0]], tau=[[1, 1]] * 4),
+        "backcross": dict(parent=[[U, U], [U, U], [0, 1], [0, 2]], tau=[[1, 1]] * 4),
+        "backcross4x+duo": dict(parent=[[U, U], [U, U], [0, 1], [2, 0], [2, U]], tau=[[2, 2]] * 5),
     }
+
+
+def random_template(r):
+    """a random pedigree: every individual draws each parent among the earlier individuals or 'unknown'"""
+    U = -1
+    N = r.randint(3, 6)
+    t = r.choice([1, 1, 2])
+    parent = []
+    for i in range(N):
+        if i < 2 and r.random() < 0.8:
+            parent.append([U, U])
+            continue
+        pq = [r.choice([U] + list(range(i))) if r.random() < 0.8 else U for _ in range(2)]
+        parent.append(pq)
+    return dict(parent=parent, tau=[[t, t]] * N)
 
 
 def draw_gamete(r, g, tau, n, lam):
@@ -99,8 +121,12 @@ def draw_gamete(r, g, tau, n, lam):
 
 def gen_pedigree(r, name=None):
     T = templates()
-    name = name or r.choice(sorted(T))
-    t = T[name]
+    if name is None and r.random() < 0.25:
+        name = "random"
+        t = random_template(r)
+    else:
+        name = name or r.choice(sorted(T))
+        t = T[name]
     parents = np.array(t["parent"], dtype=np.int64)
     tau = np.array(t["tau"], dtype=np.int64)
     N = len(parents)
